@@ -48,6 +48,12 @@ def sclose(a, b, cond, base=2e-11):
     return abs(a - b) <= tol * max(1.0, abs(a), abs(b))
 
 
+def midranks(x):
+    """average ranks (1-based), computed independently of scipy"""
+    x = list(x)
+    return np.array([sum(1 for y in x if y < v) + (sum(1 for y in x if y == v) + 1) / 2.0 for v in x])
+
+
 def gen_series(rng, n, positive):
     kind = rng.choice(["lognormal", "normal", "ramp", "ties", "small"])
     if kind == "lognormal":
@@ -64,7 +70,7 @@ def gen_series(rng, n, positive):
         o = np.array([rng.uniform(0.5, 1.5) for _ in range(n)])
     if positive:
         o = np.abs(o) + 0.05
-    skind = rng.choice(["noise", "scaled", "shifted", "perfect", "anti", "const"])
+    skind = rng.choice(["noise", "scaled", "shifted", "perfect", "anti", "const", "rounded"])
     if skind == "noise":
         s = o + np.array([rng.gauss(0, 0.5 * np.std(o) + 0.01) for _ in range(n)])
     elif skind == "scaled":
@@ -75,6 +81,10 @@ def gen_series(rng, n, positive):
         s = o.copy()
     elif skind == "anti":
         s = o[::-1].copy()
+    elif skind == "rounded":
+        s = np.round(o + np.array([rng.gauss(0, 0.3 * np.std(o) + 0.01) for _ in range(n)]), 0 if np.std(o) > 2 else 1)
+        if np.std(s) == 0:
+            s[0] += 1
     else:
         s = np.full(n, np.mean(o)) + np.array([rng.gauss(0, 1e-3) for _ in range(n)])
     if positive:
@@ -185,6 +195,17 @@ def body(ctx):
                     and np.std(tsim) > 1e-6 * (abs(np.mean(tsim)) + 1e-300):
                 reqs.append(f"corr {C.f2h(EPS)} {C.flist(to2)} {C.flist(tsim)}")
                 checks.append(("corr", float(vc), max(cond_number(to2), cond_number(tsim)), {**case, "stat": stat, "nens": m}))
+                # Spearman: Pearson correlation of the mid-ranks (ties matter)
+                vs = metrics.corr(o, ens, trans, excl, stat=stat, type="Spearman")
+                ro, rs = midranks(to2), midranks(tsim)
+                if np.std(ro) > 0 and np.std(rs) > 0:
+                    reqs.append(f"spearman {C.f2h(EPS)} {C.flist(to2)} {C.flist(tsim)}")
+                    checks.append(("corr", float(vs), max(cond_number(ro), cond_number(rs)), {**case, "stat": stat, "nens": m, "type": "Spearman"}))
+                    sdef = float(np.corrcoef(ro, rs)[0, 1])
+                    if not abs(float(vs) - sdef) <= 1e-9:
+                        ctx.finding("corr/spearman/not_definition", "Spearman correlation differs from the Pearson correlation of the average ranks",
+                                    {**case, "stat": stat, "value": float(vs), "definition": sdef})
+                    ctx.count(("spearman", tuple(to2), tuple(tsim)), True, "spearman/" + ("ties" if len(set(to2)) < len(to2) or len(set(tsim)) < len(tsim) else "no_ties"))
         except ValueError:
             pass
 
@@ -273,13 +294,26 @@ def body(ctx):
     # ---------------- binary scores
     top = ctx.scale(6, 12)
     tables = list(itertools.product(range(1, top + 1), repeat=4))
-    if not ctx.thorough:
-        tables = tables + [tuple(rng.randint(1, 5000) for _ in range(4)) for _ in range(300)]
+    tables = tables + [tuple(rng.randint(1, 10 ** rng.randint(1, 7)) for _ in range(4)) for _ in range(ctx.scale(600, 3000))]
     for (tn, fp, fn, tp) in tables:
-        sc, _ = metrics.binary([[tn, fp], [fn, tp]])
+        how = rng.choice(["list", "int64", "int32", "frame"])
+        table = [[tn, fp], [fn, tp]]
+        if how == "int64":
+            table = np.array(table, dtype=np.int64)
+        elif how == "int32":
+            table = np.array(table, dtype=np.int32)
+        elif how == "frame":
+            import pandas as pd
+            table = pd.DataFrame(table)
+        try:
+            sc, _ = metrics.binary(table)
+        except Exception as e:  # noqa
+            ctx.finding("binary/raises", "binary() raises on a 2x2 table with four positive counts",
+                        {"table": [[tn, fp], [fn, tp]], "given_as": how, "error": f"{type(e).__name__}: {e}"})
+            continue
         vals = [sc[k] for k in ("bias", "hitrate", "precision", "falsealarm", "accuracy", "F1", "MCC", "LOR", "ORSS")]
         reqs.append("binary " + " ".join(C.f2h(x) for x in (tn, fp, fn, tp)))
-        case = {"table": [[tn, fp], [fn, tp]]}
+        case = {"table": [[tn, fp], [fn, tp]], "given_as": how}
         checks.append(("binary", [float(x) for x in vals], 1.0, case))
         ctx.count(("binary", tn, fp, fn, tp), True, "binary/theta" + ("<1" if tp * tn < fp * fn else "=1" if tp * tn == fp * fn else ">1"))
         q = lambda a, b: float(Fraction(a, b))
